@@ -199,6 +199,28 @@ def r10_4(ctx):
     r4_4(ctx)
 
 
+ABSOLUTE_TIME_ATTRS = {"due_time", "init_datetime"}
+
+
+def r10_7(ctx):
+    """'absence steps are dead time: after removing them the result equals that of the run without absences': a project-wide
+    absence step shifts every later step number by one, so a step may depend on the clock only through quantities that move
+    with it (PERT values are `time + ...`, logs are indexed by the step).  An attribute that holds an *absolute* step number or
+    date -- a task's due_time, the project's init_datetime -- does not move: code of the forward step that reads it decides
+    differently after an absence step than the absence-free run does at the same amount of work done."""
+    ctx.begin("R10.7", "the forward step reads no absolute-time attribute (due_time, init_datetime)", floor=20)
+    f, loop = sim_loop(ctx)
+    reg = list(ctx.eff.reachable_from_stmts(f, loop.body, precise=True))
+    for g in reg:
+        ctx.instance(g.qualname)
+        for ef in ctx.eff.of(g):
+            if ef.kind == "read" and ef.attr in ABSOLUTE_TIME_ATTRS:
+                ctx.violation(construct(g, f"reads-absolute-time:{ef.attr}"), ef.loc,
+                              f"{g.qualname} runs inside every forward step and reads {ef.cls or '?'}.{ef.attr} (an absolute step number / date): "
+                              f"every elapsed absence step changes its relation to the clock, so the run with absences removed differs from the run without them")
+    ctx.end()
+
+
 def r10_6(ctx):
     """'automatic tasks progress at such steps exactly when perform_auto_task_while_absence_time is set': decided on the *value* of
     the argument of this call -- with the argument False no absence-step path performs anything (whatever an earlier run, the
@@ -227,6 +249,7 @@ def r10_6(ctx):
 
 def run(ctx):
     r10_6(ctx)
+    r10_7(ctx)
     r10_1(ctx)
     r10_2(ctx)
     r10_2b(ctx)
